@@ -391,7 +391,8 @@ class Interp:
             return self.glist_eq(a, b)
         if isinstance(a, SObj):
             f = self.lookup_class_attr(a.cls, '__eq__')
-            if f is not None and is_repo_fn(f):
+            if f is not None and is_repo_fn(f) and \
+                    getattr(getattr(f, '__code__', None), 'co_filename', '') != '<string>':
                 return self.call_function(f, [a, b], {})
             if isinstance(b, SObj) and a.cls is b.cls and dataclasses.is_dataclass(a.cls):
                 return b_and(*[self.eq(a.fields[k], b.fields[k]) for k in a.fields])
@@ -499,6 +500,10 @@ class Interp:
 
     def contains(self, cont, x):
         from .strings import XStr, str_contains
+        if isinstance(cont, SOpt):
+            cont = self.unopt(cont)
+            if cont is None:
+                raise PyRaise(TypeError, ("argument of type 'NoneType' is not iterable",))
         if isinstance(cont, (str, XStr)) and isinstance(x, (str, XStr)):
             if isinstance(cont, str) and isinstance(x, str):
                 return x in cont
@@ -1435,6 +1440,18 @@ class Interp:
             if cur is None:
                 raise EngineError('bare raise outside handler')
             raise cur
+        exc = node.exc
+        if isinstance(exc, ast.Call) and not exc.keywords and exc.args and all(
+                isinstance(a, ast.JoinedStr) or
+                (isinstance(a, ast.Constant) and isinstance(a.value, str)) or
+                (isinstance(a, ast.BinOp) and isinstance(a.op, ast.Add) and
+                 all(isinstance(x, (ast.JoinedStr, ast.Constant)) for x in (a.left, a.right)))
+                for a in exc.args):
+            # the message text of `raise X(f'...')` is not evaluated (dropped by the extraction,
+            # like logging arguments: assumed side-effect free and non-raising)
+            cls = self.ev(exc.func, fr)
+            if isinstance(cls, type) and issubclass(cls, BaseException):
+                raise PyRaise(cls, ('<message>',))
         v = self.ev(node.exc, fr)
         if isinstance(v, type) and issubclass(v, BaseException):
             raise PyRaise(v, ())
